@@ -69,7 +69,7 @@ fn chunking<const N: usize>() {
     kani::cover!(len == 0, "empty payload");
 }
 
-//@ harness: c12_chunks40 props=C04 also=C12 tier=quick class=functional_rel covers=6 mem=12 timeout=1200 est=150
+//@ harness: c12_chunks40 props=C04,C18 also=C12 tier=quick class=functional_rel covers=6 mem=12 timeout=1200 est=150
 //@ bounds: every payload of length 0..=40 bytes, arbitrary contents (release semantics: the code's debug_assert!s compiled out; they are decided separately by c12_wellformed)
 #[kani::proof]
 #[kani::unwind(42)]
